@@ -9,6 +9,7 @@ INVARIANT RunIsNegation
 INVARIANT CompositeAny
 INVARIANT CacheSound
 INVARIANT CacheFollowsCurrent
+INVARIANT LookupKeepsKnowledge
 INVARIANT NotIgnored
 INVARIANT ProviderTransparent
 INVARIANT ParseLaw
